@@ -30,6 +30,48 @@ def explain(fn, args, kwargs):
 '''
 
 
+def compile_family(tier):
+    """By-product of the property's first sentence, NOT solver-decided (engine 'compiler'): every family schema that
+    prophyc accepts must yield C++ full and raw sources that compile against the shipped headers (clang++-14, the same
+    translation units the E2 checks execute).  A chunk that fails is re-built shape by shape to name the culprit."""
+    from . import family as F
+    from . import cppharness as X
+    from . import rawharness as R
+    from .common import Obligation, DISCHARGED, VIOLATED, ERROR
+    out = []
+    fam = F.family('quick' if tier == 'quick' else 'thorough')
+    if tier != 'quick':
+        fam = fam[:400]
+    for backend, raw, shapes, driver in (('cpp_full', False, [s for s in fam if F.cpp_full_eligible(s)], X.driver_source), ('cpp_raw', True, fam, R.raw_driver)):
+        work = C.workdir('C12-' + backend)
+        chunks = X.prepare(work, shapes, chunk=8, raw=raw, driver=driver)
+        for c in chunks:
+            o = Obligation('compile/%s/chunk%03d' % (backend, c['idx']), 'compiler', dict(check='generated C++ compiles', backend=backend, shapes=c['names']))
+            o.paths = 1
+            if not c['error']:
+                o.verdict = DISCHARGED
+                o.nontrivial = True
+                out.append(o)
+                continue
+            culprit, msg = None, c['error']
+            for s in c['shapes']:
+                sub = X.prepare(C.workdir('C12-%s-one' % backend), [s], chunk=1, raw=raw, driver=driver)
+                if sub[0]['error']:
+                    culprit, msg = s, sub[0]['error']
+                    break
+            o.verdict = VIOLATED
+            o.replayed = True
+            first = [l for l in msg.splitlines() if 'error' in l][:1]
+            kind = 'prophyc-rejects-family-schema' if msg.startswith('prophyc failed') else 'generated-source-does-not-compile'
+            o.signature = dict(check='compile', backend=backend, kind=kind)
+            o.detail = '%s: %s | %s' % (kind, culprit.name if culprit else c['names'], (first[0] if first else msg)[-300:])
+            o.witness = dict(shape=culprit.name if culprit else None, compiler_output=msg[-800:])
+            o.replay_path = C.write_replay('C12', 800 + len(out), dict(property='C12', kind='compile', backend=backend, shape=culprit.name if culprit else None,
+                                                                        schema_text=c['text'], compiler_output=msg[-2000:]))
+            out.append(o)
+    return out
+
+
 def run(tier):
     t0 = time.time()
     work = C.workdir('C12')
@@ -64,6 +106,8 @@ def run(tier):
     raw = run_conditions(conds, 240 if tier == 'quick' else 1200)
     obs, _ = to_obligations('C12', conds, raw)
     concrete_reach(conds, obs)
+    if not os.environ.get('VF_ONLY'):
+        obs += compile_family(tier)
     return C.finish('C12', tier, obs, t0,
                     functions=['prophyc.parsers.prophy.Parser._validate_struct_members / _is_type_sizer_compatible / p_union_def / p_enum_member / p_enum_def',
                                'prophyc.model.Struct / Union constructors (duplicate checks), calc_wire_stiffness', 'prophyc.generators.python._PythonTranslator.translate_struct / translate_union / translate_enum',
